@@ -419,6 +419,9 @@ func (t *streamableHTTPClientTransport) handleSSEResponse(
 	reqID interface{},
 	options *streamOptions,
 ) (*json.RawMessage, error) {
+	// The caller hands the response over: the body is released on every path out of here.
+	defer httpResp.Body.Close()
+
 	reader := bufio.NewReader(httpResp.Body)
 	var rawResult *json.RawMessage
 	var resultReceived bool
